@@ -4,7 +4,7 @@
                      call raises exactly when both n_prior_samples and samples_idx are given
      C16_rw_chain    for every file size, option combination and pool size with at least one row and one batch: the tasks handed
                      to pool.map are a chain of non-empty contiguous ranges from 0 to the number of rows (or of the positions of
-                     the supplied index array, in the supplied order), each carrying its own start -- C16_chain about the
+                     the supplied index array, in the supplied order), each carrying its own start, index-pair tasks without and array tasks with a supplied array -- C16_chain about the
                      generated batch_tasks, composed with the generated run_worker
      C16_rw_results  results are the pool's results in task order. *)
 From Coq Require Import ZArith List Bool Lia.
@@ -20,7 +20,8 @@ Proof. exact (rw_gen_counts file_rows n_prior idx_len n_batches pool_size). Qed.
 Theorem C16_rw_chain file_rows n_prior idx_len n_batches pool_size ts :
   rw_tasks_gen file_rows n_prior idx_len n_batches pool_size = Some ts ->
   1 <= rw_n_samples file_rows n_prior idx_len -> 1 <= rw_n_batches n_batches pool_size ->
-  chain 0 (rw_n_samples file_rows n_prior idx_len) ts.
+  chain 0 (rw_n_samples file_rows n_prior idx_len) ts /\
+  Forall (fun t => t_is_idx t = match idx_len with None => true | Some _ => false end) ts.
 Proof. exact (rw_gen_chain file_rows n_prior idx_len n_batches pool_size ts). Qed.
 
 Theorem C16_rw_results : rw_results_in_task_order = true.
